@@ -19,6 +19,7 @@ const long long MB = 1LL << 20, GB = 1LL << 30, MAXV = 9223372036854775807LL;
 
 struct Spec {
   // world
+  long long shmem = 0;  // tmpfs / shared memory: counted under memory.stat `file`, but it lives on the anon LRU (reclaimable through swap only)
   long long usage = 2 * GB, fileCache = 1 * GB, anon = 900 * MB, memMin = 0, memHigh = MAXV, memMax = MAXV;
   long long swapMaxA = MAXV, swapCurA = 0, swapMaxT = MAXV, swapCurT = 0;
   long long rootSwapTotalKb = 2097152, rootSwapUsedKb = 524288;
@@ -37,7 +38,7 @@ struct Spec {
     o << "usage=" << usage << " file=" << fileCache << " anon=" << anon << " min=" << memMin << " high=" << (memHigh == MAXV ? -1 : memHigh) << " max=" << (memMax == MAXV ? -1 : memMax)
       << " swapA=(" << (swapMaxA == MAXV ? -1 : swapMaxA) << "," << swapCurA << ") swapT=(" << (swapMaxT == MAXV ? -1 : swapMaxT) << "," << swapCurT << ") rootswap=(" << rootSwapTotalKb << "k," << rootSwapUsedKb
       << "k) swappiness=" << swappiness << " reclaimfile=" << hasReclaim << " hightmp=" << hasHighTmp << " some=(" << memSome << "," << ioSome << ") psi=" << psiPattern << " env=" << envEvent
-      << " targets=" << (twoTargets ? "t/*" : "t/a") << (failReclaim ? " memory.reclaim-write-fails" : "") << " args{";
+      << (shmem ? " shmem=" + std::to_string(shmem) : std::string()) << " targets=" << (twoTargets ? "t/*" : "t/a") << (failReclaim ? " memory.reclaim-write-fails" : "") << " args{";
     for (auto& kv : args) o << kv.first << "=" << kv.second << " ";
     o << "}";
     return o.str();
@@ -187,6 +188,23 @@ struct C18 : vr::Driver {
                 s.hasHighTmp = files == 2;
                 specs.push_back(s);
               }
+      // C4. shared memory: it is page cache by accounting but only reclaimable through swap - the floor must not count it as file
+      for (long long shm : {300 * MB, 700 * MB})
+        for (int rs = 0; rs < 2; rs++)
+          for (int files = 0; files < 3; files++)
+            for (int psi : {0, 1}) {
+              Spec s = base(imm);
+              s.usage = 2 * GB;
+              s.fileCache = 200 * MB;
+              s.shmem = shm;
+              s.anon = 2 * GB - s.fileCache - shm - 100 * MB;
+              if (rs == 0) s.rootSwapTotalKb = s.rootSwapUsedKb = 0;  // no swap at all
+              s.hasReclaim = files == 1;
+              s.hasHighTmp = files == 2;
+              s.psiPattern = psi;
+              s.ticks = 12;
+              specs.push_back(s);
+            }
       // D. environment histories
       for (int ev = 1; ev <= 4; ev++)
         for (int psi : {0, 2})
@@ -234,8 +252,9 @@ struct C18 : vr::Driver {
       world::setMem(rel, usage);
       world::setFile(rel, "memory.min", std::to_string(sp.memMin) + "\n");
       world::setFile(rel, "memory.max", sp.memMax == MAXV ? "max\n" : std::to_string(sp.memMax) + "\n");
-      world::setMemStat(rel, {{"anon", sp.anon}, {"file", sp.fileCache}, {"active_anon", sp.anon / 2}, {"inactive_anon", sp.anon - sp.anon / 2}, {"active_file", sp.fileCache / 4},
-                              {"inactive_file", sp.fileCache - sp.fileCache / 4}, {"pgscan", 0}});
+      long long anonLru = sp.anon + sp.shmem;
+      world::setMemStat(rel, {{"anon", sp.anon}, {"file", sp.fileCache + sp.shmem}, {"shmem", sp.shmem}, {"active_anon", anonLru / 2}, {"inactive_anon", anonLru - anonLru / 2},
+                              {"active_file", sp.fileCache / 4}, {"inactive_file", sp.fileCache - sp.fileCache / 4}, {"pgscan", 0}});
       world::setFile(rel, "memory.swap.max", sp.swapMaxA == MAXV ? "max\n" : std::to_string(sp.swapMaxA) + "\n");
       world::setFile(rel, "memory.swap.current", std::to_string(sp.swapCurA) + "\n");
       if (sp.hasReclaim) world::setFile(rel, "memory.reclaim", "");
@@ -325,7 +344,7 @@ struct C18 : vr::Driver {
     bool swapUsable = rootTotal > 0 && sp.swappiness > 0;
     auto floorOf = [&](ld usage) {
       ld swappable = 0;
-      if (swapUsable && effFree > 0) swappable = std::min<ld>(effFree, sp.anon);
+      if (swapUsable && effFree > 0) swappable = std::min<ld>(effFree, (ld)sp.anon + sp.shmem);  // the anon LRU carries shmem too
       ld reclaimable = sp.fileCache + swappable;
       return std::max<ld>((ld)sp.memMin, usage - reclaimable + limitMin);
     };
